@@ -243,11 +243,18 @@ static void io_parity_write_mono(struct snapraid_io* io, unsigned* pos, unsigned
 	worker = &io->writer_map[i];
 	task = &worker->task_map[0];
 
-	io->writer_error[i] = 0;
-
 	/* do the work */
-	if (task->state != TASK_STATE_EMPTY)
+	if (task->state != TASK_STATE_EMPTY) {
+		int error_index;
+
 		worker->func(worker, task);
+
+		/* counts the number of errors in the global state */
+		/* like io_writer_step() does in the multi thread case */
+		error_index = task->state - IO_WRITER_ERROR_BASE;
+		if (error_index >= 0 && error_index < IO_WRITER_ERROR_MAX)
+			++io->writer_error[error_index];
+	}
 
 	/* return the position */
 	*pos = i;
